@@ -1,4 +1,5 @@
 import Rcgen.Proofs.CertDecode
+import Rcgen.Proofs.Ctor
 /-
   C02 — a certificate says exactly what its parameters say.
   Spec: `Spec.c02Clauses` (Spec/Props.lean): the RFC 5280 decoding of the to-be-signed bytes
@@ -304,5 +305,139 @@ example : certPanics exInputs.p exInputs.issuer = false := by decide +kernel
 example : ∀ e ∈ exInputs.p.customExts, e.oid ∉ interpretedOids := by decide
 example : (encode (tbsCertificate exInputs.H exInputs.p exInputs.subject exInputs.issuer)).length
     < 256 ^ 126 := by decide +kernel
+
+/-! ### the constructors that turn text and numbers into parameter values (Model/Ctor.lean)
+
+    The property names "the address/mask of CIDR subnets built from a prefix length" and the
+    serial number; callers reach both through `CidrSubnet::from_str` / `from_addr_prefix`,
+    `SerialNumber::from(u64)`, `CertificateParams::new`, `new_acme_identifier`.  These theorems
+    say what those constructors hand to the writers, for every text and number. -/
+
+/-- the mask of every prefix length a `u8` can hold is the first `min(n, width)` bits
+    (the 256-row table lifted to a statement about `n`) -/
+theorem prefixMask_leadingOnes (n : Nat) (h : n < 256) :
+    prefixMask 32 n = leadingOnes 32 n ∧ prefixMask 128 n = leadingOnes 128 n := by
+  have t := cidr_mask_all_prefixes
+  rw [List.all_eq_true] at t
+  have := t n (List.mem_range.2 h)
+  simpa using this
+
+/-- **`CidrSubnet::from_str`, every text**: whatever it accepts has the form
+    `<address>/<prefix>[/…]`; the subnet holds the octets `IpAddr::from_str` reads from the first
+    piece and, as mask, the first `min(n, width)` bits for the decimal number `n ≤ 255` the second
+    piece denotes -/
+theorem cidr_from_str_subnet (s : Bytes) (c : CidrSubnet) (h : cidrFromStr s = some c) :
+    ∃ a p rest addr n, splitOnByte 47 s = a :: p :: rest ∧ parseIp a = some addr ∧
+      parseU8 p = some n ∧ n = decVal (u8Digits p) ∧ n ≤ 255 ∧
+      ((addr.length = 4 ∧ c = .v4 addr (leadingOnes 32 n)) ∨
+       (addr.length = 16 ∧ c = .v6 addr (leadingOnes 128 n))) := by
+  unfold cidrFromStr at h
+  split at h
+  · rename_i a p rest hs
+    cases ha : parseIp a with
+    | none => simp [ha] at h
+    | some addr =>
+      cases hp : parseU8 p with
+      | none => simp [ha, hp] at h
+      | some n =>
+        simp only [ha, hp, Option.some.injEq] at h
+        obtain ⟨hle, hval, _, _⟩ := parseU8_spec p n hp
+        obtain ⟨m4, m6⟩ := prefixMask_leadingOnes n (by omega)
+        refine ⟨a, p, rest, addr, n, hs, ha, hp, hval, hle, ?_⟩
+        subst h
+        rcases parseIp_len a addr ha with h4 | h16
+        · left; exact ⟨h4, by simp [CidrSubnet.fromAddrPrefix, h4, CidrSubnet.fromV4Prefix, m4]⟩
+        · right
+          refine ⟨h16, ?_⟩
+          have : ¬ addr.length = 4 := by omega
+          simp [CidrSubnet.fromAddrPrefix, this, CidrSubnet.fromV6Prefix, m6]
+  · cases h
+
+/-- … and it accepts every such text: an address `IpAddr::from_str` reads, a `/`, a prefix length
+    `u8::from_str` reads -/
+theorem cidr_from_str_accepts (a p addr : Bytes) (n : Nat) (ha : parseIp a = some addr)
+    (hp : parseU8 p = some n) (hsa : (47 : UInt8) ∉ a) (hsp : (47 : UInt8) ∉ p) :
+    cidrFromStr (a ++ 47 :: p) = some (.fromAddrPrefix addr n) := by
+  unfold cidrFromStr
+  rw [splitOnByte_append 47 a p hsa, splitOnByte_no_sep 47 p hsp]
+  simp [ha, hp]
+
+/-- `CidrSubnet::from_addr_prefix` for the two address widths -/
+theorem cidr_from_addr_prefix (addr : Bytes) (n : Nat) (hn : n < 256) :
+    (addr.length = 4 → CidrSubnet.fromAddrPrefix addr n = .v4 addr (leadingOnes 32 n)) ∧
+    (addr.length = 16 → CidrSubnet.fromAddrPrefix addr n = .v6 addr (leadingOnes 128 n)) := by
+  obtain ⟨m4, m6⟩ := prefixMask_leadingOnes n hn
+  constructor
+  · intro h; simp [CidrSubnet.fromAddrPrefix, h, CidrSubnet.fromV4Prefix, m4]
+  · intro h
+    have : ¬ addr.length = 4 := by omega
+    simp [CidrSubnet.fromAddrPrefix, this, CidrSubnet.fromV6Prefix, m6]
+
+/-- **`SerialNumber::from(u64)`**: the certificate's serialNumber is the INTEGER `u` — the eight
+    big-endian octets lose their leading zeros in the writer and an RFC 5280 reader gets `u` back -/
+theorem serial_from_u64 (i : CertInputs) (u : Nat) (hu : u < 2 ^ 64)
+    (hs : i.p.serial = some (serialOfU64 u)) :
+    reqSerial i = u ∧ Spec.asNat (serialNode i.H i.p i.subject) = some u := by
+  have hv : ofBe (serialOfU64 u) = u := by
+    unfold serialOfU64
+    exact ofBe_beBytesFixed 8 u (by omega)
+  constructor
+  · simp [reqSerial, hs, hv]
+  · simp only [serialNode, hs, Asn1.intOfBytes, Spec.asNat]
+    rw [Proofs.Leaf.natOfIntContent_ofBytes, hv]
+
+/-- **`CertificateParams::new`**: the names become alternative names one for one and in order —
+    an IP address where `IpAddr::from_str` reads one, a DNS name otherwise (then ASCII) — and every
+    other parameter is the default -/
+theorem params_new_sans (crypto : Bool) (names : List Bytes) (p : CertParams)
+    (h : paramsNew crypto names = .ok p) :
+    p.sans = names.map sanOfName ∧
+    (∀ n ∈ names, parseIp n = none → n.all (fun b => b.toNat < 128) = true) ∧
+    p = { defaultParams with
+          sans := names.map sanOfName
+          keyIdMethod := if crypto then .sha256 else .preSpecified [] } := by
+  unfold paramsNew at h
+  cases hc : classifySans names with
+  | error e => simp [hc] at h
+  | ok sans =>
+    simp only [hc, Except.ok.injEq] at h
+    obtain ⟨hs, hasc⟩ := classifySans_ok names sans hc
+    subst h
+    exact ⟨hs, hasc, by rw [hs]⟩
+
+/-- … and it refuses exactly when some name is neither an IP literal nor ASCII -/
+theorem params_new_refuses (crypto : Bool) (names : List Bytes) (e : Err)
+    (h : paramsNew crypto names = .error e) :
+    e = .invalidAsn1String ∧
+    ∃ n ∈ names, parseIp n = none ∧ n.all (fun b => b.toNat < 128) = false := by
+  unfold paramsNew at h
+  cases hc : classifySans names with
+  | ok sans => simp [hc] at h
+  | error e' =>
+    simp only [hc, Except.error.injEq] at h
+    subst h
+    exact classifySans_error names e' hc
+
+/-- **`new_acme_identifier`**: for a 32-octet digest, the critical id-pe-acmeIdentifier extension
+    whose value is the OCTET STRING of the digest (RFC 8737 §3); any other length is the announced
+    panic -/
+theorem acme_identifier (d : Bytes) :
+    acmeIdentifier d =
+      (if d.length = 32 then some ⟨[1, 3, 6, 1, 5, 5, 7, 1, 31], true, 4 :: 32 :: d⟩ else none) := by
+  unfold acmeIdentifier
+  by_cases h : d.length = 32
+  · simp [h, acmeOid, Asn1.octets, encode, encLen, identByte]
+  · simp [h]
+
+/-! non-vacuity: "192.0.2.0/24" (RFC 5280 p. 42), a serial, a mixed name list, a digest -/
+example : cidrFromStr "192.0.2.0/24".toUTF8.toList = some (.v4 [192, 0, 2, 0] [255, 255, 255, 0]) := by
+  decide +kernel
+example : cidrFromStr "2001:db8::/+032/x".toUTF8.toList =
+    some (.v6 [0x20, 1, 0xd, 0xb8, 0, 0, 0, 0, 0, 0, 0, 0, 0, 0, 0, 0]
+              [255, 255, 255, 255, 0, 0, 0, 0, 0, 0, 0, 0, 0, 0, 0, 0]) := by decide +kernel
+example : serialOfU64 258 = [0, 0, 0, 0, 0, 0, 1, 2] := by decide
+example : (paramsNew true ["a.example".toUTF8.toList, "::1".toUTF8.toList]).toOption.map (·.sans) =
+    some [.dns "a.example".toUTF8.toList, .ip [0, 0, 0, 0, 0, 0, 0, 0, 0, 0, 0, 0, 0, 0, 0, 1]] := by
+  decide +kernel
 
 end Rcgen.Theorems.C02
